@@ -90,11 +90,16 @@ def draw_case(seed):
             if c < 0.5:
                 fresh[0] += 1
                 return "Ln/N%d;" % fresh[0]
-            if c < 0.62 and n["c"] > 1:
+            if c < 0.58 and n["c"] > 1:
                 return current["c"][r.randrange(n["c"])]     # the current name of some (other) class: a collision
+            if c < 0.66 and n["c"] > 1:
+                return names["c"][r.randrange(n["c"])]       # the ORIGINAL name of some class (possibly freed by an earlier rename)
             if c < 0.8:
                 return names[k][i]
             return r.choice([s.split('"')[1] for s in consts if '"L' in s and ';"' in s] or ["Lz/Z;"])
+        if c < 0.07:
+            # legal compiler-style spellings
+            return r.choice(["this$0", "val$x", "<tmp>", "access$000", "$VALUES", "a-b", "x$y$z", "<clinit>"])
         if c < 0.35:
             fresh[0] += 1
             return "n%d" % fresh[0]
